@@ -229,6 +229,31 @@ UNITS = {
         ],
         "contracts": ["contracts/log.vc"],
     },
+    "forms": {
+        "preludes": ["shims/core.rs", "shims/bytes.rs", "shims/env.rs", "shims/fs.rs", "shims/forms.rs"],
+        "specs": ["contracts/spec/hv.rs", "contracts/spec/lookup.rs", "contracts/spec/frames.rs"],
+        "sources": [
+            SYMBOL_SRC,
+            ("src/header/mod.rs", ["struct:Header", "consts:Header"]),
+            ("src/mime_type/mod.rs", ["struct:MimeType", "consts:MimeType"]),
+            ("src/range/mod.rs", ["struct:Range", "struct:ContentRange", "consts:Range"]),
+            ("src/request/mod.rs", ["struct:Request", "struct:Method", "const:METHOD", "fn:Request::get_header:assume", "fn:Request::get_query:assume",
+                                    "fn:Request::get_uri_query:assume", "fn:Request::get_uri_path:assume"]),
+            ("src/response/mod.rs", ["struct:Response", "struct:StatusCodeReasonPhrase", "struct:ResponseStatusCodeReasonPhrase",
+                                     "const:STATUS_CODE_REASON_PHRASE", "struct:Error"]),
+            ("src/server/mod.rs", ["struct:ConnectionInfo", "struct:Address"]),
+            ("src/entry_point/mod.rs", ["fn:get_request_allocation_size:assume"]),
+            ("src/body/form_urlencoded/mod.rs", ["struct:FormUrlEncoded", "fn:FormUrlEncoded::parse:assume"]),
+            ("src/app/controller/file/initiate/mod.rs", ["struct:FileUploadInitiateController", "fn:FileUploadInitiateController::is_matching",
+                                    "fn:FileUploadInitiateController::process"]),
+            ("src/app/controller/form/get_method/mod.rs", ["struct:FormGetMethodController", "fn:FormGetMethodController::is_matching",
+                                    "fn:FormGetMethodController::process"]),
+            ("src/app/controller/form/url_encoded_enctype_post_method/mod.rs", ["struct:FormUrlEncodedEnctypePostMethodController",
+                                    "consts:FormUrlEncodedEnctypePostMethodController",
+                                    "fn:FormUrlEncodedEnctypePostMethodController::is_matching", "fn:FormUrlEncodedEnctypePostMethodController::process"]),
+        ],
+        "contracts": ["contracts/request.vc", "contracts/server.vc", "contracts/app.vc", "contracts/forms.vc"],
+    },
 }
 for k, v in UNITS.items():
     v["name"] = k
@@ -281,7 +306,7 @@ PROPS = {
         ],
     },
     "C13": {
-        "units": ["static", "controllers"],
+        "units": ["static", "controllers", "forms"],
         "level": "other",
         "counts": counts_for("C13"),
         "explanation": "Effect precondition: every mutating function of file_ext (write_file, create_file, delete_file, read_or_create_and_write, create_directory, delete_directory, create_symlink, copy_file) is declared with `requires false`; Verus proves that none of the functions under contract (all StaticResourceController functions, Range::get_content_range_list) can call one. Adding such a call to any of them fails a named obligation. Functions on the request path that are NOT under contract (other controllers, Log) are not covered.",
@@ -314,7 +339,7 @@ PROPS = {
         "assumptions": ["the serialise-then-parse round trip itself is NOT proved (the two halves are proved against their specifications separately)"],
     },
     "C04": {
-        "units": ["server", "request_parse", "range_parse", "static", "app", "controllers", "log"],
+        "units": ["server", "request_parse", "range_parse", "static", "app", "controllers", "log", "forms"],
         "level": "proof",
         "falsifier": ["e2e"],
         "case_prefixes": ["c04_"],
@@ -324,7 +349,7 @@ PROPS = {
         "assumptions": ["stack depth of the per-header recursion in Request::cursor_read is not expressible (termination is proved, a stack bound is not)"],
     },
     "C10": {
-        "units": ["header_list", "cors", "server", "app", "controllers"],
+        "units": ["header_list", "cors", "server", "app", "controllers", "forms"],
         "level": "proof",
         "falsifier": ["e2e"],
         "case_prefixes": ["c10_"],
@@ -335,7 +360,7 @@ PROPS = {
         "assumptions": [],
     },
     "C05": {
-        "units": ["response_gen", "server", "header_list", "cors", "request_parse", "app", "controllers"],
+        "units": ["response_gen", "server", "header_list", "cors", "request_parse", "app", "controllers", "forms"],
         "level": "proof",
         "falsifier": ["response", "e2e"],
         "case_prefixes": ["c05_", "generate_response"],
